@@ -93,6 +93,9 @@ package json
 //@   assigns p.ib
 //@   ensures result == 0 || result == len(cnst)
 //@   ensures [C09_G_const] len(cnst) > 0 ==> result == ite(pfx(b, cnst), len(cnst), 0)
+// the bytes counted as inspected are exactly the matched prefix of the literal: a cut-off literal
+// counts only as far as it agrees (truncated mode must not accept bytes that contradict it)
+//@   ensures [C09_const_ib] 0 <= p.ib - old(p.ib) && p.ib - old(p.ib) <= len(cnst) && p.ib - old(p.ib) <= len(b) && (forall k :: 0 <= k && k < p.ib - old(p.ib) ==> b[k] == cnst[k]) && (p.ib - old(p.ib) < len(cnst) && p.ib - old(p.ib) < len(b) ==> b[p.ib - old(p.ib)] != cnst[p.ib - old(p.ib)])
 //@   ensures [C08C09_J2] old(p.ib) <= p.ib && p.ib <= old(p.ib) + len(b)
 //@   ensures [C08_J1] result > 0 ==> p.ib == old(p.ib) + result && result <= len(b)
 //@   loop 1 invariant p.ib == old(p.ib) + rangeindex + 1 && rangeindex + 1 <= len(b) && lb == len(b)
